@@ -148,10 +148,10 @@ class MonNet(ChargingNetwork):
 _NET_CACHE = {}
 
 
-def build_network(name, order=None, corder=None, cls=MonNet, limits=None, **kw):
+def build_network(name, order=None, corder=None, cls=MonNet, limits=None, unnamed=False, **kw):
     """Fresh network from template `name`; `order` permutes station registration,
     `corder` permutes constraint insertion, `limits` overrides constraint limits by name."""
-    key = (name, tuple(order or ()), tuple(corder or ()), cls, tuple(sorted((limits or {}).items())), tuple(sorted(kw.items())))
+    key = (name, tuple(order or ()), tuple(corder or ()), cls, tuple(sorted((limits or {}).items())), unnamed, tuple(sorted(kw.items())))
     tpl = _NET_CACHE.get(key)
     if tpl is None:
         spec = NETS[name]
@@ -169,7 +169,9 @@ def build_network(name, order=None, corder=None, cls=MonNet, limits=None, **kw):
                 cname, coefs, lim = cons[i]
                 if limits and cname in limits:
                     lim = limits[cname]
-                tpl.add_constraint(Current(dict(coefs)), lim, name=cname)
+                # unnamed: the network invents positional names (_const_0, ...), which then denote DIFFERENT
+                # constraints in differently ordered builds
+                tpl.add_constraint(Current(dict(coefs)), lim, name=None if unnamed else cname)
         _NET_CACHE[key] = tpl
     return copy.deepcopy(tpl)
 
@@ -305,8 +307,9 @@ def make_algorithm(spec):
 class Recorder(BaseAlgorithm):
     """Wraps a real scheduler; records every invocation; optional callback before the call."""
 
-    def __init__(self, inner, on_call=None, on_return=None):
+    def __init__(self, inner, on_call=None, on_return=None, peek=False):
         super().__init__()
+        self.peek = peek
         self.inner = inner
         self.max_recompute = inner.max_recompute
         self.on_call = on_call
@@ -316,6 +319,9 @@ class Recorder(BaseAlgorithm):
     def register_interface(self, interface):
         self._interface = interface
         self.inner.register_interface(interface)
+        if getattr(self, "peek", False):
+            # a scheduler program may query its interface as soon as it has one (before any event was applied)
+            self.peeked = (len(interface.active_sessions()), dict(interface.last_actual_charging_rate), interface.current_time)
 
     def schedule(self, active_sessions):
         rec = {"t": self.interface.current_time}
@@ -345,9 +351,9 @@ def horizon_of(scn):
     return (max(ts) if ts else 0)
 
 
-def build_sim(scn, algo=None, on_call=None, on_return=None, net_cls=MonNet, monitor=True, store_history=False):
+def build_sim(scn, algo=None, on_call=None, on_return=None, net_cls=MonNet, monitor=True, store_history=False, peek=False):
     """scenario descriptor -> (sim, recorder, evs, periods-log)"""
-    net = build_network(scn["net"], scn.get("order"), scn.get("corder"), cls=net_cls, limits=scn.get("limits"))
+    net = build_network(scn["net"], scn.get("order"), scn.get("corder"), cls=net_cls, limits=scn.get("limits"), unnamed=bool(scn.get("unnamed")))
     evs = {}
     events = []
     order = scn.get("sorder") or range(len(scn["sessions"]))
@@ -359,7 +365,7 @@ def build_sim(scn, algo=None, on_call=None, on_return=None, net_cls=MonNet, moni
     for t in scn.get("recompute", []):
         events.append(RecomputeEvent(t))
     inner = algo if algo is not None else make_algorithm(scn["sched"])
-    rec = Recorder(inner, on_call, on_return)
+    rec = Recorder(inner, on_call, on_return, peek=peek)
     if "k" in scn:
         rec.max_recompute = scn["k"]
     sim = Simulator(net, rec, EventQueue(events), START, period=scn.get("period", 1), verbose=False, store_schedule_history=store_history, signals=scn.get("signals"))
